@@ -41,6 +41,17 @@ chk('C17', 'fault_enumeration', "Every pattern of full/short/none deliveries ove
 chk('C18', 'fault_enumeration', "MC_Trng: TLC exhaustive over OS outcome sequences (<=8 transients) for 4 build variants, safety and liveness; every sequence with <=3 (5) transients plus long runs, short reads and open failures is injected into the real source file built in the getrandom/getentropy/raw-syscall//dev/urandom variants; each OS-call trace is validated by TLC against the TJTrng machine.",
     TLC + "; OS entry points interposed at link time", "TLA+ model MC_Trng + fault sequences from the model injected by link-time interposition + TLC trace validation", "DESIGN.md 7 C18")
 
+chk('C05', 'model_checking', "Every assembly back end (24 files, 27 target/ABI programs) is translated instruction by instruction into a TLA+ constant and executed by TLC in an ISA model (Mach32: ARM/RISC-V/Xtensa, MachAvr) for rounds 1..24 on structured and random inputs: final state = specification, write set, callee-saved registers, stack, return address, key, and a taint ghost for data-independent control flow; the C back end is trace-validated against the bit-serial NLFSR; generated files are compared with fresh generator output.",
+    TLC + "; the ISA models cover exactly the instruction subsets the shipped files use; concrete inputs, not all 2^128 x keys", "TLA+ ISA models executing the translated assembly in TLC + TLC trace validation of the C back end + byte comparison with generator output", "DESIGN.md 7 C05")
+chk('C06', 'exploration', "Sweep of every public function over exhaustive windows of length tuples, alignments, placements and NULL/0 with guard pages, canaries, read-only inputs, double runs with different pre-fills, ASan+UBSan and memcheck; TLC judges every recorded event against the footprint contract TJMem (TV_Obs).",
+    TLC + "; guard pages, ASan/UBSan (clang 14) and valgrind 3.19 produce the observations", "exhaustive length-window sweep under guard pages/sanitizers/memcheck, events judged by TLC against the TLA+ buffer contract", "DESIGN.md 7 C06")
+chk('C07', 'exploration', "Every API over public shape classes is executed under valgrind memcheck on the -O3 objects of gcc and clang with all secrets marked undefined for the duration of the call; the count of secret-dependent branches/addresses inside each call is logged and TLC (TV_Obs) requires zero.",
+    TLC + "; valgrind memcheck's definedness tracking is the observer; timing of single instructions is out of scope", "memcheck taint tracking of secrets on the optimised objects, events judged by TLC against the TLA+ leakage contract", "DESIGN.md 7 C07")
+chk('C19', 'model_checking', "MC_Conc: TLC explores every interleaving of 3 threads x 3 calls where each call may touch every writable static cell and the heap; the sets Globals and Imports are computed from the object files built from the working tree, so SerialEquivalence / NoGlobals / NoHeap are decided for this code; a 16-thread TSan workload and history-independence traces are validated by TLC (TV_Conc).",
+    TLC + "; nm/objdump of the built objects; ThreadSanitizer (clang 14) as dynamic observer", "TLA+ interleaving model with code-derived constants + TSan differential workload + TLC trace validation", "DESIGN.md 7 C19")
+chk('C20', 'exploration', "Object histories ending in free (hash/HMAC/HKDF/PRNG; fresh, mid-block, finalized, exhausted, unseeded, never initialised) with several pre-fills, and clean over every (offset, size), on gcc/clang x optimisation levels x explicit_bzero/volatile builds; TLC judges every event against TJMem!EraseOK; MC_HashStream carries FreeErases.",
+    TLC + "; memset_s / SecureZeroMemory paths do not exist on this platform", "object life-cycle histories replayed on a build matrix, events judged by TLC against the TLA+ erasure contract", "DESIGN.md 7 C20")
+
 NA = {
  'C05': "not yet implemented in this revision (ISA models of the assembly back ends are the last phase of DESIGN.md section 12)",
  'C06': "not yet implemented in this revision (memory observers: guard pages are already active in every check, the dedicated sweep is pending)",
@@ -49,7 +60,7 @@ NA = {
  'C20': "not yet implemented in this revision (free events are already judged inside C11-C17 traces; the clean grid and build matrix are pending)",
 }
 import sys
-done = [a for a in sys.argv[1:]]
+done = ['C05', 'C06', 'C07', 'C19', 'C20'] + [a for a in sys.argv[1:]]
 for p in done:
     NA.pop(p, None)
 m = dict(version=1, setup_cmd="tools/setup.sh",
